@@ -226,6 +226,19 @@ fn node_of_host(h: &str) -> u64 {
 pub fn transport(net: Arc<Mutex<Net>>) -> varpulis_cluster::verif_http::Transport {
     Arc::new(move |req: SimRequest| -> SimFuture {
         let net = net.clone();
+        let timeout = req.timeout.unwrap_or(Duration::from_secs(30));
+        // like the real client, give up when the whole exchange exceeds the client's timeout (this also bounds
+        // chains of coordinators forwarding a request to each other while leadership is unsettled)
+        Box::pin(async move {
+            match tokio::time::timeout(timeout, deliver(net, req)).await {
+                Ok(r) => r,
+                Err(_) => Err("operation timed out".to_string()),
+            }
+        })
+    })
+}
+
+fn deliver(net: Arc<Mutex<Net>>, req: SimRequest) -> SimFuture {
         Box::pin(async move {
             let (host, path) = host_of(&req.url);
             if host.starts_with('w') {
@@ -269,7 +282,8 @@ pub fn transport(net: Arc<Mutex<Net>>) -> varpulis_cluster::verif_http::Transpor
                     if lose_reply {
                         n.fault("rpc-reply-lost");
                     }
-                    Fate::Deliver { lat1: base, lat2, lose_reply }
+                    // no exchange is instantaneous: at least 1 ms each way, so that simulated time always advances
+                    Fate::Deliver { lat1: base.max(1), lat2: lat2.max(1), lose_reply }
                 }
             };
             match fate {
@@ -301,8 +315,19 @@ pub fn transport(net: Arc<Mutex<Net>>) -> varpulis_cluster::verif_http::Transpor
                         rq = rq.header(k.as_str(), v.as_str());
                     }
                     sync_clock();
-                    let resp = rq.reply(&routes).await;
+                    // run the destination's handler as its own task: a handler that itself issues requests (a follower
+                    // forwarding to the leader) must not nest warp::test calls inside one poll
+                    let resp = match tokio::spawn(async move { rq.reply(&routes).await }).await {
+                        Ok(r) => r,
+                        Err(_) => return Err("connection reset by peer".to_string()),
+                    };
                     net.lock().unwrap().delivered += 1;
+                    if std::env::var("VSIM_DEBUG").is_ok() {
+                        let d = net.lock().unwrap().delivered;
+                        if d % 500 == 0 {
+                            eprintln!("delivered #{} {} {} -> {} {} (now {:?})", d, host, path, resp.status(), String::from_utf8_lossy(&resp.body()[..resp.body().len().min(200)]), tokio::time::Instant::now());
+                        }
+                    }
                     if lose_reply || Duration::from_millis(lat1 + lat2) >= timeout {
                         tokio::time::sleep(timeout.saturating_sub(Duration::from_millis(lat1))).await;
                         return Err("operation timed out".to_string());
@@ -313,7 +338,6 @@ pub fn transport(net: Arc<Mutex<Net>>) -> varpulis_cluster::verif_http::Transpor
                 }
             }
         })
-    })
 }
 
 async fn worker_call(net: Arc<Mutex<Net>>, host: String, path: String, req: SimRequest) -> Result<SimResponse, String> {
